@@ -9,7 +9,8 @@ for P in "$@"; do
   [ -s $OUT/$ID.json ] && continue
   /verif/tools/suite_copy.sh $D > $OUT/$ID.copy.log 2>&1
   ( cd $D && patch -p1 --no-backup-if-mismatch < $PD > $OUT/$ID.patch.log 2>&1 ) || { echo "$ID: PATCH FAILED"; continue; }
-  ( cd $D/aldor && make -k -j8 > $OUT/$ID.build.log 2>&1; make -k -j8 check VERBOSE=1 > $OUT/$ID.check.log 2>&1 )
+  ( ulimit -f 1000000; cd $D/aldor && timeout 1500 make -k -j8 > $OUT/$ID.build.log 2>&1; timeout 1800 make -k -j8 check VERBOSE=1 > $OUT/$ID.check.log 2>&1; echo "rc=$?" > $OUT/$ID.rc )
+  pkill -9 -u root -f "$D/" 2>/dev/null
   python3 /w/lib/parse_tests.py --kind lines --run x --log $OUT/$ID.check.log --out $OUT/$ID.json > /dev/null 2>&1
   echo "$ID: $(python3 -c "import json;d=json.load(open('$OUT/$ID.json'));c=lambda v: len(v) if isinstance(v,(list,dict)) else v;print('passed',c(d['passed']),'failed',c(d['failed']), d['failed'] if isinstance(d['failed'],list) else '')")"
  done
